@@ -407,7 +407,9 @@ class Context(object):
         frame = self._stack[0]
         if attr in frame:
             del frame[attr]
-            del self._record[attr]
+            if attr not in self:
+                # -- KEEP RECORD: While an outer scope still has this attribute.
+                del self._record[attr]
         else:
             msg = "'{0}' object has no attribute '{1}' at the current level"
             msg = msg.format(self.__class__.__name__, attr)
